@@ -58,10 +58,10 @@ def resolve(eng: TypeEngine, container: str, elem: str, depth: int = 0) -> Dict:
         raise AnalysisError("membership resolution does not terminate for %s in %s" % (elem, container))
     c = eng.class_by_name.get(container)
     if c is None:
-        return {"ok": False, "terminals": [("-", 0, "container %s is not a package class" % container, "no-class")]}
+        return {"ok": False, "nodes": [], "terminals": [("-", 0, "container %s is not a package class" % container, "no-class")]}
     m = c.lookup("__contains__")
     if m is None:
-        return {"ok": False, "terminals": [(container, 0, "no __contains__", "no-method")]}
+        return {"ok": False, "nodes": [], "terminals": [(container, 0, "no __contains__", "no-method")]}
     return _resolve_fn(eng, m, (S(container), S(elem)), depth)
 
 
@@ -72,6 +72,7 @@ def _resolve_fn(eng: TypeEngine, m: FunctionInfo, args: tuple, depth: int) -> Di
         eng.solve([(m, args)])
         sm = eng.memo.get((m.qual, bound))
     out = []
+    nodes = []
     ok = True
     n_reached = 0
     for t in _terminals(m):
@@ -97,13 +98,15 @@ def _resolve_fn(eng: TypeEngine, m: FunctionInfo, args: tuple, depth: int) -> Di
                     for a in argt:
                         sub = _resolve_fn(eng, f2, (S(r), S(a)), depth + 1)
                         out += sub["terminals"]
+                        nodes += sub["nodes"]
                         ok = ok and sub["ok"]
             continue
         out.append((m.short, t.lineno, txt(t)[:80], cls))
+        nodes.append((m, t, bound, cls))
         if cls != "ok":
             ok = False
     # an AttributeError (forward to a missing in_) shows as an Unknown-valued call
     if n_reached == 0:
         ok = False
         out.append((m.short, m.node.lineno, "no terminal statement reached for %s" % (args,), "unreachable"))
-    return {"ok": ok, "terminals": out}
+    return {"ok": ok, "terminals": out, "nodes": nodes}
